@@ -154,8 +154,8 @@ def make_session(fa, rnd, g, ir, raw, records, codecs):
     earlier fields were encoded), flushes, and copies of whole blocks of a donor file (optionally iterated first)."""
     last = ir["fields"][-1]["name"]
     lt = g.resolve(ir["fields"][-1]["type"])
-    if lt["k"] == "prim" and lt["name"] == "null":
-        return None              # a null field is written whatever the value
+    if lt["k"] == "prim" and lt["name"] in ("null", "boolean"):
+        return None              # a null / boolean field is written whatever the value (truthiness)
     plan = []
     for r in records:
         x = rnd.random()
